@@ -11,6 +11,7 @@ import (
 	"crypto/sha512"
 	"encoding/binary"
 	"encoding/hex"
+	"encoding/json"
 	"fmt"
 	"sort"
 	"strings"
@@ -283,7 +284,7 @@ func runC02(c Case) (res *res02) {
 				}
 				wl = append(wl, le)
 			}
-			if err = tree.ApplyWriteLog(ctx, writelog.NewStaticIterator(wl)); err != nil {
+			if err = tree.ApplyWriteLog(ctx, &scanningWL{inner: writelog.NewStaticIterator(wl), scan: func() { res.sig.scan(tree) }}); err != nil {
 				fail("error", "unexpected error: ApplyWriteLog: %v", err)
 				return
 			}
@@ -413,12 +414,17 @@ func runC02(c Case) (res *res02) {
 
 // ---------- generation ----------
 
-func genOps02(r *prng.R, g *keygen, isDB bool) []Op {
+func genOps02(r *prng.R, g *keygen, isDB, long bool) []Op {
 	var ops []Op
 	n := r.Range(1, 60)
+	if long {
+		n = r.Range(40, 150)
+	}
 	for i := 0; i < n; i++ {
 		x := r.Intn(100)
 		switch {
+		case long && r.Chance(45):
+			ops = append(ops, Op{K: "ins", Key: g.newKey(), Val: g.val()})
 		case x < 58:
 			ops = append(ops, Op{K: "ins", Key: g.key(), Val: g.val()})
 		case x < 88:
@@ -462,7 +468,7 @@ func finish02(r *prng.R, c Case) Case {
 func genC02(r *prng.R) Case {
 	c := Case{Mode: "c02", TwinOf: -1}
 	genConfig(r, &c)
-	c.Ops = genOps02(r, newKeygen(r), c.isDB())
+	c.Ops = genOps02(r, newKeygen(r), c.isDB(), longHistory(r, c))
 	return finish02(r, c)
 }
 
@@ -619,15 +625,16 @@ func twinWriteLog(r *prng.R, base Case, br *res02) Case {
 
 // ---------- shrinking ----------
 
-// shrink02 greedily drops operations while the oracle reports the same kind of violation.
-func shrink02(c Case, kind string, cut int) Case {
+// shrink02 greedily drops operations while the case still fails and accept
+// holds (same kind of violation, or same finding key).
+func shrink02(c Case, cut int, accept func(cand Case, r *res02) bool) Case {
 	test := func(ops []Op) ([]Op, bool) {
 		cand := normalize02(c.withOps(ops))
 		r := runC02(cand)
-		if r.viol == nil || r.viol.kind != kind {
+		if r.viol == nil || !accept(cand, r) {
 			return nil, false
 		}
-		if r.panicked || kind == "error" {
+		if r.panicked || r.viol.kind == "error" {
 			return cand.Ops, true // the run stopped early: keep the description as it is
 		}
 		return r.eff, true
@@ -689,6 +696,7 @@ type session02 struct {
 	byRoot     map[string]Case // root -> first case that produced it
 	contentsOf map[string]string
 	shapes     map[string]bool
+	sigOf      map[string]sigState // flags of the cases registered in the global maps
 	samples    int
 }
 
@@ -726,16 +734,45 @@ func (s *session02) process(c Case, base *Case, br *res02) (*res02, int) {
 		s.samples++
 		s.sum.Sample(map[string]any{"desc": c, "root": hex.EncodeToString(r.finalRoot())}, 3)
 	}
+	if r.viol == nil {
+		if r.sig.f1 {
+			s.sum.Count("sig_without_failure", "dirty_node_with_evicted_leaf")
+		}
+		if r.sig.f2 {
+			s.sum.Count("sig_without_failure", "dirty_pointer_without_node")
+		}
+	}
 	if r.viol != nil {
+		if key, mech := classify(c, r.sig.failF1, r.sig.failDepth); key != "" {
+			recordFinding(s.sum, key, mech+r.viol.what, c, r.sig, func() (Case, string) {
+				sc := shrink02(c, r.cut, func(cand Case, rc *res02) bool {
+					k, _ := classify(cand, rc.sig.failF1, rc.sig.failDepth)
+					return k == key
+				})
+				what := mech + r.viol.what
+				if r2 := runC02(sc); r2.viol != nil {
+					_, m2 := classify(sc, r2.sig.failF1, r2.sig.failDepth)
+					what = m2 + r2.viol.what
+				}
+				return sc, what
+			})
+			return r, idx
+		}
 		s.sum.Count("violations", r.viol.kind+"/"+c.Backend)
 		sc, what := c, r.viol.what
 		if firstOfItsKind(r.viol.kind, c) {
-			sc = shrink02(c, r.viol.kind, r.cut)
+			kind := r.viol.kind
+			sc = shrink02(c, r.cut, func(cand Case, rc *res02) bool {
+				k, _ := classify(cand, rc.sig.failF1, rc.sig.failDepth)
+				return rc.viol.kind == kind && k == ""
+			})
 			if r2 := runC02(sc); r2.viol != nil {
 				what = r2.viol.what
 			}
 		}
-		s.sum.Violations = append(s.sum.Violations, map[string]any{"what": what, "case": sc, "evicting_config": evicting(c)})
+		s.sum.Violations = append(s.sum.Violations, map[string]any{"what": what, "case": sc, "evicting_config": evicting(c),
+			"node_cap_vs_max_path_depth":       fmt.Sprintf("%d vs %d", c.NodeCap, r.sig.failDepth),
+			"sig_dirty_node_with_evicted_leaf": r.sig.failF1, "sig_dirty_pointer_without_node": r.sig.failF2})
 		return r, idx
 	}
 	// S(1): a twin ends at its base's root
@@ -745,22 +782,44 @@ func (s *session02) process(c Case, base *Case, br *res02) (*res02, int) {
 	// S(2): contents <-> root, over the whole run
 	cc, root := canonContents(r.ref), string(r.finalRoot())
 	if prev, ok := s.byContents[cc]; ok && s.rootOf[cc] != root {
-		a, b := shrinkPair(prev, c, sameContentsDifferentRoot)
-		s.sum.Violations = append(s.sum.Violations, map[string]any{
-			"what": fmt.Sprintf("equal contents, different roots: %x (earlier case) vs %x", s.rootOf[cc], root),
-			"case": map[string]any{"base": a, "twin": b}})
+		s.pairViolation(fmt.Sprintf("equal contents, different roots: %x (earlier case) vs %x", s.rootOf[cc], root),
+			prev, s.sigOf[caseKey(prev)], c, r.sig, sameContentsDifferentRoot)
 	} else if !ok {
 		s.byContents[cc], s.rootOf[cc] = c, root
 	}
 	if prev, ok := s.byRoot[root]; ok && s.contentsOf[root] != cc {
-		a, b := shrinkPair(prev, c, differentContentsSameRoot)
-		s.sum.Violations = append(s.sum.Violations, map[string]any{
-			"what": fmt.Sprintf("different contents, equal root %x", root),
-			"case": map[string]any{"base": a, "twin": b}})
+		s.pairViolation(fmt.Sprintf("different contents, equal root %x", root),
+			prev, s.sigOf[caseKey(prev)], c, r.sig, differentContentsSameRoot)
 	} else if !ok {
 		s.byRoot[root], s.contentsOf[root] = c, cc
 	}
+	s.sigOf[caseKey(c)] = r.sig
 	return r, idx
+}
+
+func caseKey(c Case) string {
+	b, _ := json.Marshal(c)
+	return string(b)
+}
+
+// pairViolation reports a violation that involves two cases. When either
+// member, taken alone, shows one of the two known eviction mechanisms (its
+// flags over the whole run), the pair is attributed to that finding.
+func (s *session02) pairViolation(what string, a Case, asig sigState, b Case, bsig sigState, pred func(ra, rb *res02) bool) {
+	for _, m := range []struct {
+		c   Case
+		sig sigState
+	}{{b, bsig}, {a, asig}} {
+		if key, mech := classify(m.c, m.sig.f1, m.sig.maxDepth); key != "" {
+			sig := m.sig
+			sig.failF1, sig.failF2, sig.failDepth = sig.f1, sig.f2, sig.maxDepth
+			w := mech + "pair violation: " + what
+			recordFinding(s.sum, key, w, m.c, sig, func() (Case, string) { return m.c, w })
+			return
+		}
+	}
+	sa, sb := shrinkPair(a, b, pred)
+	s.sum.Violations = append(s.sum.Violations, map[string]any{"what": what, "case": map[string]any{"base": sa, "twin": sb}})
 }
 
 // S(1): a twin must end at its base's root. Returns true when a violation was recorded.
@@ -778,19 +837,17 @@ func (s *session02) checkTwin(base Case, br *res02, twin Case, tr *res02) bool {
 	if bytes.Equal(br.finalRoot(), tr.finalRoot()) {
 		return false
 	}
-	a, b := shrinkPair(base, twin, sameContentsDifferentRoot)
-	s.sum.Violations = append(s.sum.Violations, map[string]any{
-		"what": fmt.Sprintf("twin (%s) ends at root %x, its base at %x, with equal contents", twin.TwinKind, tr.finalRoot(), br.finalRoot()),
-		"case": map[string]any{"base": a, "twin": b}})
+	s.pairViolation(fmt.Sprintf("twin (%s) ends at root %x, its base at %x, with equal contents", twin.TwinKind, tr.finalRoot(), br.finalRoot()),
+		base, br.sig, twin, tr.sig, sameContentsDifferentRoot)
 	return true
 }
 
 func mainC02(seed uint64, n int, out string, rp *replayInput) {
 	s := &session02{
 		w: coqout.NewWriter(out, coqHeader, "run_c02", "c02_eqb", 20),
-		sum: coqout.NewSummary("seeded insert/remove/apply-write-log/commit/reopen histories (1-60 operations, keys of 0-4 bytes over {00,01,80,ff} plus long keys up to 64 bytes, values of 0-8 bytes) on the real tree over backends mem/badger/pathbadger with node capacities {0,1,2,3,8,5000} and value capacities {0,1,16,64,16M}, plus shuffle/detour/writelog twins of ~60% of the base cases; " +
+		sum: coqout.NewSummary("seeded insert/remove/apply-write-log/commit/reopen histories (1-60 operations, keys of 0-4 bytes over {00,01,80,ff} plus long keys up to 64 bytes, values of 0-8 bytes) on the real tree over backends mem/badger/pathbadger with node capacities {0,1,2,3,8,16,32,5000} (long histories of 40-150 operations biased to new keys for about 20% of the cases) and value capacities {0,1,16,64,16M}, plus shuffle/detour/writelog twins of ~60% of the base cases; " +
 			"compared: every committed root hash and the shape dumped after the last commit; non-trivial = the final tree has at least one internal node; distinct = distinct final shape dumps among those"),
-		byContents: map[string]Case{}, rootOf: map[string]string{}, byRoot: map[string]Case{}, contentsOf: map[string]string{}, shapes: map[string]bool{},
+		byContents: map[string]Case{}, rootOf: map[string]string{}, byRoot: map[string]Case{}, contentsOf: map[string]string{}, shapes: map[string]bool{}, sigOf: map[string]sigState{},
 	}
 	defer func() {
 		s.w.Close()
